@@ -301,6 +301,11 @@ theorem pooled_one_reply_per_command (cfg : Config) (h14 : cfg.headerLen = 14) (
   rw [hspec] at hs1
   cases hs1
   rw [ho, solo, runConn_eq_run, segmentation_independent cfg h14 hc hd cmds segs hseg hs hmax hok]
+  congr 1
+  unfold execAll
+  induction cmds with
+  | nil => rfl
+  | cons c cs ih => simp [Action.isDropped]
 
 /-- `*2\r\n$3\r\nGET\r\n$5\r\nab` — a client that disconnects in the middle of a frame -/
 def midFrame : Bytes := [42, 50, 13, 10, 36, 51, 13, 10, 71, 69, 84, 13, 10, 36, 53, 13, 10, 97, 98]
